@@ -152,6 +152,34 @@ def run(ck):
     except Exception as e:
         ck.notes.append('module construction raised %s: %s' % (type(e).__name__, str(e)[:80]))
     loader_check('after-constructing-modules')
+    # every public entry point of the loader with every table name and flag, whether or not the combination is
+    # supported (unsupported ones raise ValueError): none of these calls may change what later calls return
+    import inspect
+    abuse = 0
+    for name in sorted(files) + ['no_such_table']:
+        for fn_name in ('level1', 'biort', 'qshift'):
+            fn = getattr(coeffs, fn_name, None)
+            if fn is None:
+                continue
+            kws = [{}]
+            if 'compact' in inspect.signature(fn).parameters:
+                kws = [{'compact': False}, {'compact': True}, {}]
+            for kw in kws:
+                try:
+                    r = fn(name, **kw)
+                    for a in (r if isinstance(r, (tuple, list)) else [r]):
+                        np.asarray(a).sum()
+                except Exception:
+                    pass
+                abuse += 1
+        for cls_name in ('DTCWTForward2', 'DTCWTInverse2'):
+            try:
+                from pytorch_wavelets.dtcwt import lowlevel2
+                getattr(lowlevel2, cls_name)(biort=name) if 'h0o' in files.get(name, {}) else None
+            except Exception:
+                pass
+    ck.extra['loader_calls_in_every_combination'] = abuse
+    loader_check('after-every-loader-call-combination')
     st.samples.append({'loader_calls': st.evaluations, 'files': sorted(files)})
 
 
